@@ -86,7 +86,7 @@ Lemma step_positional_into st tb cl : d_into st = Some tb -> call_ok (d_cls st) 
   exists s1, step cl st = Ok s1 /\ positional (Some tb) st [cl] s1.
 Proof.
   intros Hin Hok. unfold positional, rows_of_calls, cols_of_calls, sets_of_calls, froms_of_calls, sels_of_calls.
-  destruct cl as [a|a|a|a|f v|t sels|w|n]; cbn [call_ok] in Hok; cbn [step flat_map fold_left flag_step where_step limit_step rows_of_call app map].
+  destruct cl as [a|a|a|a|f v|t sels|w|n|t|t|sels]; cbn [call_ok] in Hok; cbn [step flat_map fold_left flag_step where_step limit_step rows_of_call app map].
   - rewrite Hin, (col_args_legal a Hok). eexists; split; [reflexivity|]. cbn. rewrite !app_nil_r. repeat split; auto.
   - unfold apply_terms. rewrite Hin, (arg_rows_legal (d_cls st) a Hok). eexists; split; [reflexivity|]. cbn. rewrite !app_nil_r. repeat split; auto.
   - unfold apply_terms. rewrite Hin, (arg_rows_legal (d_cls st) a Hok). eexists; split; [reflexivity|]. cbn. rewrite !app_nil_r. repeat split; auto.
@@ -94,6 +94,9 @@ Proof.
     unfold apply_terms. rewrite Hin, Ecl, (arg_rows_legal CSQLLite a Hok). eexists; split; [reflexivity|]. cbn. rewrite !app_nil_r. repeat split; auto.
   - eexists; split; [reflexivity|]. cbn. rewrite !app_nil_r. repeat split; auto.
   - eexists; split; [reflexivity|]. cbn. rewrite !app_nil_r. repeat split; auto.
+  - eexists; split; [reflexivity|]. cbn. rewrite !app_nil_r. repeat split; auto.
+  - eexists; split; [reflexivity|]. cbn. rewrite !app_nil_r. repeat split; auto.
+  - discriminate Hok.
   - eexists; split; [reflexivity|]. cbn. rewrite !app_nil_r. repeat split; auto.
   - eexists; split; [reflexivity|]. cbn. rewrite !app_nil_r. repeat split; auto.
 Qed.
@@ -118,7 +121,7 @@ Lemma step_positional_nodml st cl : nodml_call cl = true ->
   exists s1, step cl st = Ok s1 /\ positional (d_into st) st [cl] s1.
 Proof.
   intros Hok. unfold positional, rows_of_calls, cols_of_calls, sets_of_calls, froms_of_calls, sels_of_calls.
-  destruct cl as [a|a|a|a|f v|t sels|w|n]; try discriminate Hok;
+  destruct cl as [a|a|a|a|f v|t sels|w|n|t|t|sels]; try discriminate Hok;
     cbn [step flat_map fold_left flag_step where_step limit_step rows_of_call app map];
     (eexists; split; [reflexivity|]; cbn; rewrite ?app_nil_r; destruct (d_into st); rewrite ?app_nil_r; repeat split; auto).
 Qed.
@@ -145,3 +148,25 @@ Lemma scalar_among_rows c t l z : run c (SInto t) [KInsert [ASeq SqTuple l; AVal
 Proof. reflexivity. Qed.
 Lemma ior_outside_sqlite t a : run CQuery (SInto t) [KInsertOrReplace a] = Err "TypeError".
 Proof. reflexivity. Qed.
+
+(* into() may come after from_() / where() / limit() calls: the builder state is the same as when it comes first
+   (it must come before select(): otherwise the statement is a SELECT ... INTO) *)
+Lemma pre_into_step cl st : pre_into_call cl = true ->
+  exists s1, step cl st = Ok s1 /\ d_into s1 = d_into st /\ d_selects s1 = d_selects st
+             /\ forall x, step cl (set_into st x) = Ok (set_into s1 x).
+Proof.
+  destruct cl as [a|a|a|a|f v|t sels|w|n|t|t|sels]; intros H; try discriminate H;
+    (eexists; split; [reflexivity|]; repeat split; reflexivity).
+Qed.
+Theorem into_commutes t post : forall pre st, forallb pre_into_call pre = true -> d_into st = None -> d_selects st = [] ->
+  run_from (pre ++ KInto t :: post) st = run_from (pre ++ post) (set_into st (Some t)).
+Proof.
+  induction pre as [|cl r IH]; intros st H Hi Hs.
+  - cbn [app run_from step]. rewrite Hi, Hs. reflexivity.
+  - cbn [forallb] in H. apply andb_prop in H as [Hc Hr].
+    destruct (pre_into_step cl st Hc) as (s1 & E1 & E2 & E3 & E4).
+    cbn [app run_from]. rewrite E1, (E4 (Some t)). apply IH; [exact Hr|congruence|congruence].
+Qed.
+Corollary into_position_irrelevant c t pre post : forallb pre_into_call pre = true ->
+  run c SBuilder (pre ++ KInto t :: post) = run c (SInto t) (pre ++ post).
+Proof. intros H. unfold run. rewrite (into_commutes t post pre (init c SBuilder) H eq_refl eq_refl). reflexivity. Qed.
